@@ -1,6 +1,7 @@
 """C01 - compiled Python model == the user's symbolic state model (E1; translation validation)."""
 from __future__ import annotations
 
+from fractions import Fraction
 import json
 import random
 
@@ -302,6 +303,81 @@ def task_regimes(pd, cse, tier, seed):
     return part.d
 
 
+def _exp_arguments(terms):
+    """Arguments of every exp application inside the z3 terms produced by the symbolic run."""
+    seen, out = set(), []
+
+    def walk(t):
+        if t.get_id() in seen:
+            return
+        seen.add(t.get_id())
+        if z3.is_app(t) and t.num_args() == 1 and "exp" in t.decl().name():
+            out.append(t.arg(0))
+        for ch in t.children():
+            walk(ch)
+
+    for t in terms:
+        walk(t)
+    return out
+
+
+def task_events(pd, cse, tier, seed):
+    """Floating-point events (companion, solver-directed): for every exp(...) the real compiled model evaluates, z3 picks a
+    float-exact input at which the argument lies in [-1000, -760] (the result underflows to 0.0, nothing overflows); the
+    real code must return the specification's value there, relative to operand magnitude."""
+    import math
+
+    from formak import python
+
+    from .common import Q, dyadic_box, solve
+
+    p = pd
+    part = Part()
+    part.program(p.id)
+    part.fn("python.compile", "python.Model.model", "python.BasicBlock.execute")
+    env = pyh.input_env(p)
+    _, assumes = pyh.spec_update(p, env)
+
+    def harness():
+        with installed(), quiet():
+            pm = python.compile(_ui(p), pyh.sym_calibration_map(p, env), config=pyh.py_config(cse))
+            out = pm.model(SymReal(env[p.dt]), pm.State(**pyh.sym_state_kwargs(p.state, env)), pm.Control(**pyh.sym_state_kwargs(p.control, env)))
+        return [lift(v) for v in out.data.reshape(-1)]
+
+    leaves = explore(harness, assumes=assumes)
+    part.leaves(leaves)
+    n = 0
+    for leaf in leaves:
+        if leaf.status != "ok":
+            continue
+        for a in _exp_arguments(leaf.value)[:8]:
+            q = solve(assumes + leaf.pc + [a <= -760, a >= -1000, env[p.dt] > 0] + dyadic_box(env, lo=-64, hi=64, denom=4), 5000, tag=f"{p.id}/event")
+            if q.status != "sat":
+                continue
+            n += 1
+            e = {n_: float(q.model.get(n_, Fraction(1, 4))) for n_ in env}
+            kb = f"{p.id}/cse={int(cse)}/event-underflow"
+            info = {"program": p.id, "cse": cse, "kind": "regime", "regime": "exp underflow"}
+            try:
+                got = concrete_model(p, cse, e)
+            except Exception as ex:
+                path = write_replay(PID, {"key": kb, "info": info, "inputs": e, "exception": f"{type(ex).__name__}: {ex}"})
+                part.violation(kb, f"Model.model raises {type(ex).__name__}: {ex} at {e}, where the update expressions are defined (an exp argument lies in [-1000, -760]: the result underflows)", path)
+                return part.d
+            want = pyh.evalf_spec(p.update, e)
+            mags = {s: X.evalmag(p.update[s], e) for s in p.state}
+            bad = [s for s in p.state if not (math.isfinite(got[s]) and abs(got[s] - want[s]) <= 1e-9 * mags[s] + 1e-300)]
+            part.record(Q("sat" if bad else "unsat", None, 0.0, ""), f"{kb}: model == specification at a solver-picked underflow point (concrete replay)")
+            if bad:
+                path = write_replay(PID, {"key": kb, "info": info, "inputs": e})
+                part.violation(kb, f"Model.model differs from the update expressions at the underflow point {e}: " + ", ".join(f"{s}: got {got[s]!r} expected {want[s]!r}" for s in bad[:3]), path)
+                return part.d
+    part.extra("py_underflow_event_points", n)
+    if n == 0:
+        part.harness_error(f"{p.id}: vacuity: no underflow point found for any exp application")
+    return part.d
+
+
 def run(tier, seed):
     rep = Report(PID, tier, seed, "translation_validation")
     ps = programs_for(tier, seed)
@@ -311,6 +387,7 @@ def run(tier, seed):
     from .common import with_extra_validation
 
     tasks += [(with_extra_validation, (task, CP.P3(), True, tier, seed)), (with_extra_validation, (task, CP.P1(), False, tier, seed))]
+    tasks += [(task_events, (CP.P33(), True, tier, seed)), (task_events, (CP.P33(), False, tier, seed)), (with_extra_validation, (task_events, CP.P33(), True, tier, seed)), (with_extra_validation, (task_events, CP.P33(), False, tier, seed))]
     first = [t for t in tasks if t[0] is task_regimes]
     for d in pmap_staged(_dispatch, first, [t for t in tasks if t[0] is not task_regimes]):
         rep.merge(d)
